@@ -572,6 +572,79 @@ var Scenarios = []Directed{
 	}},
 	{"window_grows_one_stale", []string{"C14"}, fam(3), func(s *Script) { windowGrows(s, 3, []int64{5, 11, 15}) }},
 	{"window_grows_two_stale", []string{"C14"}, fam(3), func(s *Script) { windowGrows(s, 2, []int64{4, 5, 11, 15}) }},
+	{"jail_edges", []string{"C14", "C11", "C12", "C10"}, fam(3), func(s *Script) {
+		// window 4, at least 2 signed.  A validator with two delegators misses the heights 4, 6 and 8: the first miss lies
+		// exactly on the edge of the window of the third one (3 misses in [4..8]: stopped at block 9, with three stakes to
+		// release).  Its power changes right before the last absence (the votes carry the power of four blocks ago).
+		s.Begin(allHdr) // 1
+		s.End()
+		s.Begin(allHdr) // 2
+		s.expect(OK(s.Stake(5, 2, "3e18")), "a5 -> a2")
+		s.End()
+		s.Begin(allHdr) // 3
+		s.expect(OK(s.Stake(6, 2, "2e18")), "a6 -> a2")
+		s.End()
+		for h := 4; h <= 16; h++ {
+			switch h {
+			case 5, 7, 9:
+				s.Begin(Hdr{Absent: []int{2}})
+			default:
+				s.Begin(allHdr)
+			}
+			if h == 8 {
+				s.Stake(7, 2, "1e18") // the power changes one block before the last absence is reported
+			}
+			s.End()
+		}
+	}},
+	{"foreign_unstake_small_set", []string{"C11", "C12", "C05"}, fam(1), func(s *Script) {
+		// a single validator (no stake limiter): somebody else tries to release a delegator's stake, then the delegatee's
+		// record is written again by a third party, then the owner releases it
+		s.Blocks(2, allHdr)
+		s.Begin(allHdr) // 3
+		s.expect(OK(s.Stake(4, 1, "5e18")), "a4 -> a1")
+		s.End()
+		ids := s.StakeIDs(4, 1)
+		if len(ids) != 1 {
+			s.expect(false, "a4's stake exists")
+			return
+		}
+		s.Begin(allHdr) // 4
+		s.expect(!OK(s.Unstake(5, 1, ids[0])), "a5 tries to release a4's stake")
+		s.expect(OK(s.Stake(6, 1, "2e18")), "a6 -> a1 (the record is written again)")
+		s.End()
+		s.Blocks(1, allHdr)
+		s.Begin(allHdr) // 6
+		s.expect(!OK(s.Unstake(1, 1, ids[0])), "the validator tries to release a4's stake")
+		s.expect(OK(s.Unstake(4, 1, ids[0])), "a4 releases its own stake")
+		s.End()
+		s.Blocks(5, allHdr)
+	}},
+	{"limiter_refusal_then_more", []string{"C05", "C06", "C11"}, fam(3), func(s *Script) {
+		// four validators of 100; at most 33 % of the bonded power may be released per block (delegations do not count).
+		// 60, 80 and 1 are delegated; in the next block (541 bonded) 80 and 60 are released (25.9 %), the release of a
+		// validator's own 100 is refused (44 %), and the release of 1 more must still be accepted (26.1 %)
+		s.Blocks(3, allHdr)
+		s.Begin(allHdr) // 4
+		s.expect(OK(s.Stake(5, 1, "60e18")), "a5 -> a1: 60")
+		s.expect(OK(s.Stake(6, 2, "80e18")), "a6 -> a2: 80")
+		s.expect(OK(s.Stake(7, 3, "1e18")), "a7 -> a3: 1")
+		s.End()
+		s.Begin(allHdr) // 5
+		for _, pr := range [][2]int{{6, 2}, {5, 1}} {
+			if ids := s.StakeIDs(pr[0], pr[1]); len(ids) == 1 {
+				s.expect(OK(s.Unstake(pr[0], pr[1], ids[0])), "a delegator leaves")
+			}
+		}
+		if ids := s.StakeIDs(4, 4); len(ids) == 1 {
+			s.expect(!OK(s.Unstake(4, 4, ids[0])), "a4's own 100 on top of that is refused (the block's limit)")
+		}
+		if ids := s.StakeIDs(7, 3); len(ids) == 1 {
+			s.expect(OK(s.Unstake(7, 3, ids[0])), "1 more is within the limit")
+		}
+		s.End()
+		s.Blocks(2, allHdr)
+	}},
 	{"restart_after_first_block", []string{"C10", "C07"}, fam(0), func(s *Script) {
 		// the very first block already changes the staking ledger (a new validator, a delegation), and the process is
 		// restarted right after it: version 1 is the only committed version, there is no version before it
